@@ -49,7 +49,7 @@ def case_strategy(draw, tier):
         kw = {}
         if kind in ("merge", "shift"):
             kw = dict(liquids_only=True, t_uniform=(kind == "merge"))
-        rec, opts = draw(gen.hyd_case(max_n=8 if tier == "quick" else 20, tight=True, labels=False, **kw))
+        rec, opts = draw(gen.hyd_case(max_n=8 if tier == "quick" else 20, tight=True, labels=False, fm_weights=(10, 1, 1), **kw))
         opts["mode"] = "hydraulics"
     rec.pop("row_order", None)
     sel = draw(st.lists(st.booleans(), min_size=40, max_size=40))
@@ -216,6 +216,10 @@ def reversed_frame(df, idxs, gas=False, hyd_ref=None):
 
 def evaluate(case):
     rw = rewrite(case)
+    if rw is None and case["kind"] != "reverse":
+        # the drawn rewrite does not apply to this recipe (e.g. no junction with two loads): use the one that always applies
+        case = dict(case, kind="reverse", sel=[True] + list(case["sel"][1:]))
+        rw = rewrite(case)
     if rw is None:
         return Outcome(discard="nothing_to_rewrite")
     ra, rb, spec = rw
@@ -225,7 +229,26 @@ def evaluate(case):
     kind = case["kind"]
     labels = {"kind:" + kind, "mode:" + opts["mode"], "gas" if na.fluid.is_gas else "liquid"}
     f = []
+    labels_extra = set()
     has_lift = any(e["table"] in ("pump", "compressor") for e in ra["elements"])
+    if sa.status != sb.status and "rejected" in (sa.status, sb.status):
+        # one description ended in a state with negative pressure (recipe.solve), e.g. before the pressures were shifted up
+        return Outcome(discard="one_description_in_negative_pressure_state")
+    if {sa.status, sb.status} == {"ok", "not_converged"}:
+        # borderline: equivalent descriptions take slightly different Newton paths; the verdict only counts if it persists
+        # with a generous iteration limit (same policy as C07 / C15)
+        big = dict({k_: v_ for k_, v_ in opts.items() if not k_.startswith("max_iter")}, iter=1000)
+        na, nb = build(ra), build(rb)
+        sa, sb = solve(na, **big), solve(nb, **big)
+        labels_extra = {"verdict_rechecked_with_iter_1000"}
+        if {sa.status, sb.status} == {"ok", "not_converged"} and "tol_m" in opts:
+            # with the tight tolerances of this check (1e-10) one description can end in a limit cycle at the 1e-7 bar level
+            # (seen: constant damping oscillates, automatic damping converges) that does not exist at the default
+            # tolerances (1e-5). If both descriptions converge there, the tight-tolerance verdict is no statement.
+            loose = {k_: v_ for k_, v_ in opts.items() if not k_.startswith("tol_")}
+            if solve(build(ra), **loose).ok and solve(build(rb), **loose).ok:
+                return Outcome(discard="limit_cycle_below_default_tolerance_in_one_description")
+    labels |= labels_extra
     if sa.status != sb.status:
         if has_lift:
             return Outcome(discard="verdict_mismatch_with_pump_or_compressor")
@@ -242,6 +265,9 @@ def evaluate(case):
         return Outcome(findings=f, labels=labels, nontrivial=True, sample=_sample(case))
     if not sa.ok:
         return Outcome(discard=sa.status)
+    from ..compare import laminar_under_turbulent_model
+    if laminar_under_turbulent_model(opts, na, nb):
+        return Outcome(discard="laminar_branch_under_turbulent_only_friction_model")
     if has_lift:
         for n_ in (na, nb):
             for t in ("pump", "compressor"):
